@@ -27,6 +27,42 @@ Proof.
   exists (Z.of_nat n). split; [unfold zlen; lia|]. unfold zat. rewrite Nat2Z.id. assumption.
 Qed.
 
+(* ---- the number of trees by definition: the distinct breakpoints below L ---- *)
+Definition bps (t : tables) : list Z :=
+  0 :: map (elz t) (zrange (num_edges t)) ++ map (erz t) (zrange (num_edges t)).
+Definition cntlt (t : tables) (x : Z) : Z :=
+  Z.of_nat (length (nodup Z.eq_dec (filter (fun b => b <? x) (bps t)))).
+(* num_trees_spec t L: number of distinct values among 0 and the edge end points that are < L *)
+Definition num_trees_spec (t : tables) (Lz : Z) : Z := cntlt t Lz.
+
+Lemma cntlt_step t x x' :
+  In x (bps t) -> x < x' -> (forall b, In b (bps t) -> b <= x \/ x' <= b) ->
+  cntlt t x' = cntlt t x + 1.
+Proof.
+  intros IN LT GAP. unfold cntlt.
+  assert (P : Permutation (nodup Z.eq_dec (filter (fun b => b <? x') (bps t)))
+                          (x :: nodup Z.eq_dec (filter (fun b => b <? x) (bps t)))).
+  { apply NoDup_Permutation.
+    - apply NoDup_nodup.
+    - constructor; [|apply NoDup_nodup]. rewrite nodup_In, filter_In. intros [_ H]. apply Z.ltb_lt in H. lia.
+    - intro b. rewrite nodup_In, filter_In. cbn [In]. rewrite nodup_In, filter_In. rewrite !Z.ltb_lt. split.
+      + intros [H1 H2]. destruct (GAP b H1); [|lia]. destruct (Z.eq_dec x b); [left; assumption|right; split; [assumption|lia]].
+      + intros [H|[H1 H2]]; [subst; split; assumption|split; [assumption|lia]]. }
+  rewrite (Permutation_length P). simpl. lia.
+Qed.
+
+Lemma filter_none {A} (f : A -> bool) l : (forall b, In b l -> f b = false) -> filter f l = [].
+Proof.
+  induction l as [|a r IH]; intro H; simpl; [reflexivity|].
+  rewrite (H a (or_introl eq_refl)). apply IH. intros b Hb. apply H. right; assumption.
+Qed.
+
+Lemma cntlt_0 t : (forall b, In b (bps t) -> 0 <= b) -> cntlt t 0 = 0.
+Proof.
+  intro H. unfold cntlt. rewrite filter_none; [reflexivity|].
+  intros b Hb. apply Z.ltb_ge. apply H. assumption.
+Qed.
+
 Section SweepComplete.
   Variable v : variant.
   Variable t : tables.
@@ -320,13 +356,14 @@ Section SweepComplete.
     ord (sw_j s) (sw_k s) x /\
     (x = 0 \/ hit (sw_j s) (sw_k s) x \/ (x = Lz /\ sw_j s = ne)) /\
     0 <= sw_trees s /\
-    sw_trees s + (ne - sw_j s) + (ne - sw_k s) + (if x =? 0 then 1 else 0) <= 2 * ne + 1.
+    sw_trees s + (ne - sw_j s) + (ne - sw_k s) + (if x =? 0 then 1 else 0) <= 2 * ne + 1 /\
+    sw_trees s = cntlt t x.
 
   Lemma sweep_step_complete s x : cinv s x -> (sw_j s <? ne) || flt (sw_left s) (seqlen t) = true ->
     exists s' x', sweep_step t II OO s = Ok s' /\ cinv s' x' /\ x < x' /\
       (ne - sw_j s') + (ne - sw_k s') + (if x =? 0 then 0 else 1) <= (ne - sw_j s) + (ne - sw_k s).
   Proof.
-    intros [EX [INV [MINV [[J1 [J2 [K1 K2]]] [HIT [T0 TB]]]]]] COND.
+    intros [EX [INV [MINV [[J1 [J2 [K1 K2]]] [HIT [T0 [TB TC]]]]]]] COND.
     assert (XL : x < Lz).
     { rewrite EX, HL, flt_fin in COND. apply orb_true_iff in COND as [C|C]; b2z; [|assumption].
       destruct INV. specialize (J2 (sw_j s) ltac:(lia)).
@@ -411,13 +448,27 @@ Section SweepComplete.
         * assumption.
       + right. unfold hit. tauto.
       + lia.
-      + replace (b =? 0) with false by (symmetry; apply Z.eqb_neq; destruct INV; lia).
-        destruct (x =? 0) eqn:X0; [lia|]. b2z.
-        assert (PROG : j1 + k1 > sw_j s + sw_k s).
-        { destruct HIT as [HIT|[[[Q1 Q2]|[Q1 Q2]]|[Q1 Q2]]]; [lia| | |lia].
-          - destruct (Z_lt_dec (sw_j s) j1); [lia|]. specialize (J2' (sw_j s) ltac:(lia)). lia.
-          - destruct (Z_lt_dec (sw_k s) k1); [lia|]. specialize (K2' (sw_k s) ltac:(lia)). lia. }
-        lia.
+      + split.
+        * replace (b =? 0) with false by (symmetry; apply Z.eqb_neq; destruct INV; lia).
+          destruct (x =? 0) eqn:X0; [lia|]. b2z.
+          assert (PROG : j1 + k1 > sw_j s + sw_k s).
+          { destruct HIT as [HIT|[[[Q1 Q2]|[Q1 Q2]]|[Q1 Q2]]]; [lia| | |lia].
+            - destruct (Z_lt_dec (sw_j s) j1); [lia|]. specialize (J2' (sw_j s) ltac:(lia)). lia.
+            - destruct (Z_lt_dec (sw_k s) k1); [lia|]. specialize (K2' (sw_k s) ltac:(lia)). lia. }
+          lia.
+        * rewrite TC. symmetry. apply cntlt_step; [| lia |].
+          -- unfold bps. fold ne. destruct HIT as [HIT|[[[Q1 Q2]|[Q1 Q2]]|[Q1 Q2]]]; [left; lia| | |lia].
+             ++ right. apply in_or_app. left. rewrite <- Q2. apply in_map. apply zrange_In.
+                apply zI_range. destruct INV; lia.
+             ++ right. apply in_or_app. right. rewrite <- Q2. apply in_map. apply zrange_In.
+                apply zO_range. destruct INV; lia.
+          -- intros b0 Hb. unfold bps in Hb. fold ne in Hb. destruct Hb as [Hb|Hb]; [left; destruct INV; lia|].
+             apply in_app_or in Hb. destruct Hb as [Hb|Hb]; apply in_map_iff in Hb; destruct Hb as [e [Ee Re]];
+               apply zrange_In in Re; subst b0.
+             ++ destruct (pos_in_I e Re) as [a0 [Ra0 Ea0]]. rewrite <- Ea0.
+                destruct (Z_lt_dec a0 j1); [left; apply J1'; lia|right; apply JB; lia].
+             ++ destruct (pos_in_O e Re) as [a0 [Ra0 Ea0]]. rewrite <- Ea0.
+                destruct (Z_lt_dec a0 k1); [left; apply K1'; lia|right; apply KB; lia].
     - assumption.
     - cbn [sw_j sw_k sw_left sw_parent sw_used sw_site sw_mut sw_trees]. destruct (x =? 0) eqn:X0; [lia|]. b2z.
       destruct HIT as [HIT|[[[Q1 Q2]|[Q1 Q2]]|[Q1 Q2]]]; [lia| | |lia].
@@ -497,7 +548,7 @@ Section SweepComplete.
     - exists u'. exact E.
   Qed.
 
-  Theorem tree_complete : exists n, check_tree_integrity_with v t II OO = Ok n.
+  Theorem tree_complete : exists n, check_tree_integrity_with v t II OO = Ok n /\ n = num_trees_spec t Lz.
   Proof.
     unfold check_tree_integrity_with.
     set (s0 := mkSW 0 0 F0 (repeat TSK_NULL (length (node_time t))) (repeat 0 (length (edge_left t))) 0 0 0).
@@ -509,11 +560,14 @@ Section SweepComplete.
       - split; [intros; lia|]. split; [|split; [intros; lia|]].
         + intros a Ra. destruct (efin _ (zI_range a Ra)) as [_ [_ [Q _]]]. lia.
         + intros a Ra. destruct (efin _ (zO_range a Ra)) as [_ [_ [Q _]]]. lia.
-      - simpl (0 =? 0). pose proof ne0. lia. }
+      - simpl (0 =? 0). pose proof ne0. split; [lia|]. split; [lia|]. symmetry. apply cntlt_0.
+        intros b Hb. unfold bps in Hb. fold ne in Hb. destruct Hb as [Hb|Hb]; [lia|].
+        apply in_app_or in Hb. destruct Hb as [Hb|Hb]; apply in_map_iff in Hb; destruct Hb as [e [Ee Re]];
+          apply zrange_In in Re; subst b; destruct (efin e Re) as [_ [_ [Q _]]]; lia. }
     destruct (sweep_complete (sweep_fuel t) s0 0 C0) as [s1 [x1 [E1 [C1 EXIT]]]].
     { cbn [s0 sw_j sw_k]. simpl (0 =? 0). unfold sweep_fuel. fold ne. pose proof ne0. lia. }
     rewrite E1. cbn [bind].
-    destruct C1 as [EX [INV [MINV [[J1 [J2 [K1 K2]]] _]]]].
+    destruct C1 as [EX [INV [MINV [[J1 [J2 [K1 K2]]] [_ [_ [_ TC]]]]]]].
     rewrite EX, HL, flt_fin in EXIT. apply orb_false_iff in EXIT as [X1 X2]. b2z.
     assert (EJ : sw_j s1 = ne) by (destruct INV; lia).
     assert (EXL : x1 = Lz) by (destruct INV; lia). subst x1.
@@ -521,7 +575,7 @@ Section SweepComplete.
     - destruct INV as [Ij Ik Ix Lp Lu Cn Us Pa A1 Dj Rg oI oO sI sO]. rewrite EJ in *.
       split; [fold ne; lia|]. split; [assumption|]. split; [assumption|]. intros _. split; assumption.
     - intros a Ra. specialize (K2 a Ra). destruct (efin _ (zO_range a ltac:(destruct INV; lia))) as [_ [_ [_ [Q _]]]]. lia.
-    - rewrite ET. cbn [bind]. eexists. reflexivity.
+    - rewrite ET. cbn [bind]. eexists. split; [reflexivity|]. exact TC.
   Qed.
 End SweepComplete.
 
@@ -546,7 +600,8 @@ Qed.
 
 Theorem check_complete_lemma v t :
   WF t -> ValidTS t -> 2 * num_edges t + 1 < TSK_MAX_ID ->
-  exists n, check_integrity v opts_trees t = Ok n.
+  exists n, check_integrity v opts_trees t = Ok n /\
+            forall Lz, seqlen t = Fin Lz -> n = num_trees_spec t Lz.
 Proof.
   intros W V HOV. unfold check_integrity. fold oT.
   destruct (v_seqlen t V) as [Lz [HL HLpos]].
@@ -565,9 +620,13 @@ Proof.
   destruct (v_index t V) as [I [O [EI [PI PO]]]].
   unfold check_tree_integrity. rewrite EI.
   destruct (wf_idx t W I O EI) as [LI LO].
-  apply (tree_complete v t I O Lz W HL HLpos (v_nodes t V) (v_edge_rows t V) (v_sites t V)
-           (v_mut_rows t V) (v_mut_order t V) (v_disjoint t V) (v_mut_below t V) PI PO LI LO HOV).
+  destruct (tree_complete v t I O Lz W HL HLpos (v_nodes t V) (v_edge_rows t V) (v_sites t V)
+           (v_mut_rows t V) (v_mut_order t V) (v_disjoint t V) (v_mut_below t V) PI PO LI LO HOV) as [n [E C]].
+  exists n. split; [exact E|]. intros Lz' HL'. rewrite HL in HL'. inversion HL'; subst. reflexivity.
 Qed.
 
 Example complete_nonvacuous : exists n, check_integrity faithful opts_trees ex_valid = Ok n.
 Proof. exists 1. vm_compute. reflexivity. Qed.
+
+Example num_trees_spec_example : num_trees_spec ex_valid 4 = 1.
+Proof. vm_compute. reflexivity. Qed.
